@@ -482,7 +482,51 @@ func genEmail(t *rapid.T) harness.Case {
 	return harness.Case{In: []byte(s)}
 }
 
+// genStructuredURI follows the shape of RFC 3986: scheme, authority with user
+// information, a host that is a name, an IPv4 address or a bracketed IP literal
+// (with a zone identifier, spelled %25 or with a bare %), port, path, query and
+// fragment; then up to two tokens are inserted anywhere.
+func genStructuredURI(t *rapid.T) string {
+	pick := func(tag string, xs ...string) string { return xs[rapid.IntRange(0, len(xs)-1).Draw(t, tag)] }
+	var sb strings.Builder
+	sb.WriteString(pick("scheme", "", "http:", "ab+c.d-e:", "mailto:", "HTTP:", ":"))
+	if rapid.Bool().Draw(t, "authority") {
+		sb.WriteString("//")
+		sb.WriteString(pick("user", "", "", "u@", "u:p@", "é@", "%41@"))
+		switch rapid.IntRange(0, 3).Draw(t, "host") {
+		case 0:
+			sb.WriteString(pick("name", "a.b", "x-y.example", "é.com", "a_b", ""))
+		case 1:
+			sb.WriteString(pick("ip4", "127.0.0.1", "1.2.3", "256.1.1.1"))
+		default:
+			sb.WriteString("[")
+			for i, n := 0, rapid.IntRange(1, 5).Draw(t, "groups"); i < n; i++ {
+				sb.WriteString(pick("group", "::", ":", "fe80", "1", "0", "ABCD", ".", "1.2.3.4", "v1.x"))
+			}
+			if rapid.Bool().Draw(t, "zone") {
+				sb.WriteString(pick("zonesep", "%25", "%", "%2", "%%"))
+				sb.WriteString(pick("zoneid", "eth0", "-", "1", "~a", "en%201", "é"))
+			}
+			sb.WriteString(pick("close", "]", "]", "]", ""))
+		}
+		sb.WriteString(pick("port", "", "", ":80", ":", ":x"))
+	}
+	sb.WriteString(pick("path", "", "/", "/a/b", "/a b", "/é", "/%41%zz", "/a;b=c", "/(x)", "/[x]", "//"))
+	sb.WriteString(pick("query", "", "", "?q=1&r=2", "?a=[1]", "?%", "?é=%C3%A9"))
+	sb.WriteString(pick("fragment", "", "", "#f", "#%", "#a#b", "#[x]"))
+	s := sb.String()
+	toks := []string{"%", "[", "]", ":", "://", " ", "é", "%4", "\x80", "@", "//"}
+	for n := rapid.IntRange(0, 2).Draw(t, "ninsert"); n > 0 && len(s) > 0; n-- {
+		at := rapid.IntRange(0, len(s)).Draw(t, "insertat")
+		s = s[:at] + toks[rapid.IntRange(0, len(toks)-1).Draw(t, "insert")] + s[at:]
+	}
+	return s
+}
+
 func genURI(t *rapid.T) harness.Case {
+	if rapid.Bool().Draw(t, "structured") {
+		return harness.Case{In: []byte(genStructuredURI(t))}
+	}
 	toks := []string{"a", "%", "%4", "%41", "%4G", "%gg", "%C3%A9", " ", "é", "/", "[", "]", "\x80", "\xff", "?", "#", "&", "\"", "<", "\\", "%25", "%%", "猫", "\x00", "~", "^", "{", "`", "|"}
 	n := rapid.IntRange(0, 12).Draw(t, "n")
 	var sb strings.Builder
@@ -510,6 +554,8 @@ func TestProperty(t *testing.T) {
 		}, Rule: "NormalizeURI on random token strings (malformed escapes, invalid UTF-8, NUL)"},
 		harness.Check{Name: "email_enum", Prop: func(c harness.Case) harness.Result { _, err := checkEmail(string(c.In)); return harness.Result{Err: err} },
 			Rule: "IsEmailAddress (and <s> autolinks through Parse) on every short string over {a 1 . - @ ! SP} against the spec's regular expression; non-trivial = the string is an address"},
+		harness.Check{Name: "email_bytes", Prop: func(c harness.Case) harness.Result { _, err := checkEmail(string(c.In)); return harness.Result{Err: err} },
+			Rule: "enumerated: every byte value in nine positions of an e-mail address, IsEmailAddress and the end-to-end autolink decision against the spec's regular expression"},
 		harness.Check{Name: "email_random", Quick: 40000, Thorough: 400000, Gen: genEmail, Prop: func(c harness.Case) harness.Result {
 			nt, err := checkEmail(string(c.In))
 			return harness.Result{Nontrivial: nt, Err: err}
@@ -541,6 +587,20 @@ func TestProperty(t *testing.T) {
 			counted(t, plan)
 		}
 		enumStrings(t, plan, "email_enum", []string{"a", "1", ".", "-", "@", "!", " "}, el, checkEmail)
+		if harness.Cfg().Shard == 0 && !t.Failed() {
+			// every byte value in every position class of an address
+			for b := 0; b < 256; b++ {
+				c := string([]byte{byte(b)})
+				for ti, s := range []string{c + "@a.b", "a" + c + "@a", "a" + c + "b@a", "a@" + c, "a@a" + c, "a@a." + c, "a@a" + c + "a", "a@a-" + c, "a@" + c + "a.b"} {
+					_, err := checkEmail(s)
+					harness.CountRaw("email_bytes", uint64(b)<<4|uint64(ti), true, func() string { return fmt.Sprintf("%q", s) })
+					if err != nil && harness.Fail(t, plan, "email_bytes", harness.Case{In: []byte(s)}, err) {
+						return
+					}
+				}
+			}
+			harness.SetExhaustive("email_bytes", "every byte value 0..255 in nine positions of an address (first, middle and last of the local part, first, middle and last of a domain label, after a hyphen, after a dot)")
+		}
 	}
 	harness.Run(t, plan)
 }
